@@ -212,7 +212,8 @@ def call_sites(b):
     calls_ = [x for x in ast.walk(node) if isinstance(x, ast.Call) and ast.unparse(x.func) == "self.tides.orbit_spin_changed"]
     ok = len(calls_) == 1 and {k.arg: ast.unparse(k.value) for k in calls_[0].keywords} == dict(eccentricity_change="eccentricity_changed", obliquity_change="obliquity_changed",
                                                                                                  orbital_freq_changed="orbital_freq_changed", spin_freq_changed="spin_freq_changed")
-    ground(b, f"{FWT}::TidalWorld.orbit_spin_changed::forwards", f"{FWT}::TidalWorld.orbit_spin_changed", "the world forwards its four change flags to the tides object unchanged", ok)
+    structural(b, f"{FWT}::TidalWorld.orbit_spin_changed::forwards", f"{FWT}::TidalWorld.orbit_spin_changed", "the world forwards its four change flags to the tides object unchanged",
+               "ok" if ok else ("wrong" if len(calls_) == 1 else "unknown"), detail=str([ast.unparse(c_) for c_ in calls_])[:300])
 
 
 def fixed_parameters(b):
@@ -337,8 +338,9 @@ def forwarding(b):
         want = dict(eccentricity_change="eccentricity_change", obliquity_change="obliquity_change", orbital_freq_changed="orbital_freq_changed", spin_freq_changed="spin_freq_changed")
         got = [{k.arg: ast.unparse(k.value) for k in c_.keywords if k.arg in want} for c_ in calls_]
         ok = len(calls_) >= 1 and all(g_ == want for g_ in got)
-        ground(b, f"{fn.key}::forwards", fn.key, "the four change flags reach the base-class update unchanged (super().orbit_spin_changed(eccentricity_change=eccentricity_change, ...))", ok,
-               detail=str(got)[:300], refuted_model=None if ok else dict(keywords=str(got)[:300]))
+        recognised = len(calls_) >= 1 and all(set(g_) == set(want) for g_ in got)      # every flag is passed by keyword: a different right-hand side is a different flag
+        structural(b, f"{fn.key}::forwards", fn.key, "the four change flags reach the base-class update unchanged (super().orbit_spin_changed(eccentricity_change=eccentricity_change, ...))",
+                   "ok" if ok else ("wrong" if recognised else "unknown"), detail=str(got)[:300])
 
 
 # ---------------------------------------------------------------------------------------------
